@@ -190,7 +190,7 @@ func init() {
 		ID:      "C06",
 		NewCase: func() interface{} { return &GCase{} },
 		Gen: func(t *rapid.T) interface{} {
-			o := GenOpts{MaxNT: 3, MaxDepth: 3, Alphabet: "ab\n", NonMono: true, MaxInput: 6, Names: true, Skeleton: rapid.Bool().Draw(t, "skeleton")}
+			o := GenOpts{MaxNT: 3, MaxDepth: 3, Alphabet: "ab\n", NonMono: true, MaxInput: 6, Names: true, Skeleton: rapid.Bool().Draw(t, "skeleton"), NearMiss: true}
 			if thorough() {
 				o.MaxNT, o.MaxInput = 4, 8
 			}
